@@ -320,6 +320,10 @@ def shard_identity(acc, shard, nshards, counts):
             i += 1
 
 
+# coverage-guided variants of the structured generators (thorough tier, pv/fuzz/target.py hyp:<name>)
+FUZZ = {"basis": ("basis", basis_cases), "from_string": ("from_string", string_cases)}
+
+
 def run(acc, tier):
     engine.pmap(acc, shard_identity, extra=((50, 1500, 5000) if tier == "quick" else (50, 1500, 5000, 45000),))
     if tier == "quick":
@@ -332,3 +336,4 @@ def run(acc, tier):
         engine.pmap(acc, shard_small_mesh, extra=(4,))
         engine.pmap(acc, shard_triples_classical, extra=(2, 4))
         engine.pmap(acc, shard_generated, extra=(1500, 800))
+        engine.fuzz(acc, "hyp:basis", CHECKS, 3000, max_len=4096)
